@@ -472,6 +472,46 @@ func paramsOf(d distObj) (ps []float64, panicMsg string) {
 	return
 }
 
+// importInto reads the configuration into a USED distribution object of the
+// same family (built from the same abstract configuration, then given other
+// parameters and, for HMMs, other start/final states) through its own
+// ImportConfig, instead of a new object from the registry.
+func importInto(n *docNode, d distObj, b []byte) (r distObj, err error, panicMsg string) {
+	panicMsg = vh.Try(func() {
+		cfg := ConfigDistribution{}
+		if err = cfg.ReadJson(bytes.NewReader(b)); err != nil {
+			return
+		}
+		var u distObj
+		if u, err = buildDist(n); err != nil {
+			panic("cannot build the receiver: " + err.Error())
+		}
+		ub := u.basic()
+		vh.Try(func() { // other parameters (families that refuse the shifted set keep theirs)
+			if name := n.F["Name"]; name != nil && strings.Contains(name.S, "mixture") {
+				// SetParameters of the vector/matrix mixtures calls itself without bound
+				// (fatal stack overflow; not a reader, outside C18): leave their parameters alone
+				return
+			}
+			ps := ub.GetParameters().CloneVector()
+			if ps.Dim() > 0 {
+				ps.At(0).SetFloat64(ps.At(0).GetFloat64() + 0.25)
+				ub.SetParameters(ps)
+			}
+		})
+		if h, ok := ub.(interface {
+			SetStartStates([]int) error
+			SetFinalStates([]int) error
+		}); ok {
+			vh.Try(func() { h.SetStartStates([]int{1}); h.SetFinalStates([]int{0}) })
+		}
+		if err = ub.ImportConfig(cfg, Float64Type); err == nil {
+			r = u
+		}
+	})
+	return
+}
+
 func importAs(d distObj, b []byte) (r distObj, err error, panicMsg string) {
 	panicMsg = vh.Try(func() {
 		cfg := ConfigDistribution{}
@@ -637,7 +677,7 @@ func (r *runner) distSig(c *tcase, what string) vh.M {
 		family = c.Obj.Cfg.F["Name"].S // damaged documents: the outer family identifies the reader
 	}
 	return vh.M{"engine": "serial", "mode": mode, "kind": "dist", "format": "config", "family": family,
-		"fault": ft, "what": what}
+		"fault": ft, "what": what, "receiver": rcvOf(c)}
 }
 
 func (r *runner) distReport(c *tcase, raw json.RawMessage, what, msg string, doc []byte) {
@@ -691,7 +731,13 @@ func (r *runner) runDist(ci int, c *tcase, raw json.RawMessage) {
 	if c.Mutated != nil {
 		mut = []byte(*c.Mutated)
 	}
-	imp, err, pm := importAs(d, mut)
+	var imp distObj
+	var pm string
+	if c.Rcv.used() {
+		imp, err, pm = importInto(c.Obj.Cfg, d, mut)
+	} else {
+		imp, err, pm = importAs(d, mut)
+	}
 	r.jr.at(ci, 0, "dist-judge")
 	if len(c.Faults) == 0 {
 		r.count("roundtrips")
